@@ -13,6 +13,7 @@ import (
 
 type Clause struct {
 	Kind  string // requires, ensures, invariant, decreases, lemma, chaninv
+	Props []string // non-empty: the clause is an obligation of these properties only (label@C11,C12)
 	Label string
 	Expr  *Expr
 	Text  string
@@ -292,16 +293,25 @@ func addClause(c *Contract, kw, text, file string, line int) error {
 		// optional "label:" prefix (identifier followed by ':' and not ':=')
 		if i := strings.Index(text, ":"); i > 0 && i < 40 {
 			cand := strings.TrimSpace(text[:i])
-			if isIdent(cand) && !strings.HasPrefix(text[i:], ":=") {
+			base := cand
+			if j := strings.Index(cand, "@"); j > 0 {
+				base = cand[:j]
+			}
+			if isIdent(base) && !strings.HasPrefix(text[i:], ":=") {
 				label = cand
 				text = strings.TrimSpace(text[i+1:])
 			}
+		}
+		var props []string
+		if j := strings.Index(label, "@"); j > 0 {
+			props = strings.Split(label[j+1:], ",")
+			label = label[:j]
 		}
 		e, err := parseExpr(text)
 		if err != nil {
 			return nil, fmt.Errorf("%s:%d: %v", file, line, err)
 		}
-		return &Clause{Kind: kind, Label: label, Expr: e, Text: text, File: file, Line: line}, nil
+		return &Clause{Kind: kind, Label: label, Props: props, Expr: e, Text: text, File: file, Line: line}, nil
 	}
 	switch kw {
 	case "props":
@@ -342,10 +352,12 @@ func addClause(c *Contract, kw, text, file string, line int) error {
 			c.Modifies = append(c.Modifies, e)
 		}
 	case "loop":
-		fs := strings.SplitN(text, " ", 3)
-		if len(fs) < 3 {
+		ff := strings.Fields(text)
+		if len(ff) < 3 {
 			return fmt.Errorf("%s:%d: bad loop clause", file, line)
 		}
+		rest := strings.TrimSpace(strings.TrimPrefix(strings.TrimSpace(strings.TrimPrefix(strings.TrimSpace(text), ff[0])), ff[1]))
+		fs := []string{ff[0], ff[1], rest}
 		n, err := strconv.Atoi(fs[0])
 		if err != nil {
 			return fmt.Errorf("%s:%d: bad loop ordinal", file, line)
